@@ -617,6 +617,15 @@ def aggregate(prop, tier, seed, results, wall, build_s, violations, notes):
         for k, v in r.items():
             if k.startswith("d.") and isinstance(v, str):
                 diag_names.setdefault(k[2:], set()).add(v)
+    extra_distinct = {}
+    if prop == "C14":
+        extra_distinct["distinct_schedules"] = len(set(r.get("evhash") for r in results if r.get("evhash")))
+        extra_distinct["distinct_first_use_orders"] = len(set(r.get("fuhash") for r in results if r.get("fuhash")))
+    if prop == "C09":
+        extra_distinct["distinct_first_use_orders"] = len(set(r.get("fuhash") for r in results if r.get("fuhash")))
+        extra_distinct["distinct_histories"] = len(set(r.get("hist") for r in results if r.get("hist")))
+    if prop in ("C08", "C03", "C10"):
+        extra_distinct["distinct_histories"] = len(set(r.get("hist") for r in results if r.get("hist")))
     faults = {k[2:]: v for k, v in agg.items() if k.startswith("f.")}
     probes = {k[2:]: v for k, v in agg.items() if k.startswith("p.")}
     ops = {k[3:]: v for k, v in agg.items() if k.startswith("op.")}
@@ -641,7 +650,7 @@ def aggregate(prop, tier, seed, results, wall, build_s, violations, notes):
             diagnostics=dict(counts=diags, names={k: sorted(v)[:20] for k, v in diag_names.items()},
                              note="observations that are not violations by themselves (DESIGN 2.4)"),
             fault_fired=faults, probes=probes, probes_at_zero=zero_probes, operations=ops,
-            runs_by_flavour=by_flavour,
+            runs_by_flavour=by_flavour, **extra_distinct,
             maxima={k: v for k, v in agg.items() if k.startswith("max_")},
             other={k: v for k, v in agg.items() if k[:2] not in ("f.", "p.", "d.") and not k.startswith("op.") and not k.startswith("max_")},
             components=dict(
